@@ -395,6 +395,42 @@ def run(ctx):
                       '%r %s' % (word, ('is the number %r' % (want,)) if ok_word else 'is refused with RuntimeError, so the next kind of value is tried'),
                       '%s(%r) gives %s; %s' % (fname, word, sorted(got), ('Python reads the word as %r' % (want,)) if ok_word else 'it is not a number'))
         ctx.floor('C05.6', nnum, 8, 'sample evaluations of ' + fname)
+    # object words: `type@id` / `type#id` split at the sign; `nil` and a word that starts with a digit are an id (with optional
+    # incarnation letters); any other word is a type name; the empty word is no restriction - decided by folding the paths of
+    # _parse_obj_matcher on sample words (every first character class, every digit, both signs)
+    f_pom = repo.func('matcher._parse_obj_matcher')
+    par_o = _cm.cparams(f_pom)[0]
+    pom_paths = paths_of(repo, f_pom, unroll=1)
+    nobj = 0
+    for word in ('0', '1', '5', '8', '9', '90', '97', '9b', '12a', '007', 'nil', 'wl_surface', 'x9', 'a', 'nil2', '_9', 'wl_*', 'wl_surface@5', 'wl_surface#5b', '@9', '#9a', ''):
+        if '@' in word or '#' in word:
+            sign = '#' if '#' in word else '@'
+            want_name, want_id = word.split(sign, 1)
+        elif word == 'nil' or (word[:1].isdigit() and word[:1].isascii()):
+            want_name, want_id = '', word
+        else:
+            want_name, want_id = word, ''
+        texts_sp = {"_split_pair(%s, '#')" % par_o: (tuple(word.split('#', 1)) if '#' in word else None),
+                    "_split_pair(%s, '@')" % par_o: (tuple(word.split('@', 1)) if '@' in word else None)}
+        got = set()
+        for p in _cm.paths_for_input(pom_paths, {par_o: word}, texts_sp):
+            if p.outcome[0] != 'return':
+                got.add(p.outcome[0])
+                continue
+            nobj += 1
+            parts = {}
+            for e in p.events:
+                if e.kind == 'call' and e.ftext in ('_parse_text_matcher', '_parse_obj_id_matcher') and e.args:
+                    try:
+                        parts[e.ftext] = _foldv(e.args[0], {par_o: word}, texts_sp)
+                    except _Unfv as ex:
+                        parts[e.ftext] = 'not evaluable: %s' % ex
+            got.add((parts.get('_parse_text_matcher', ''), parts.get('_parse_obj_id_matcher', '')))
+        both = bool(want_name and want_id)      # a word that names a type AND an id is refused (the displayed label is pasted as its id part)
+        ctx.check(got == ({'raise'} if both else {(want_name, want_id)}), 'C05.6', 'object-word:%s' % (word or '<empty>'), f_pom.loc(),
+                  'the object word %r is %s' % (word, 'refused (type and id at once)' if both else 'read as type %r / id %r' % (want_name, want_id)),
+                  'the object word %r is read as %s (type, id); the documented reading is %s' % (word, sorted(got, key=str), 'a refusal (type and id at once)' if both else 'type %r / id %r' % (want_name, want_id)))
+    ctx.floor('C05.6', nobj, 20, 'sample evaluations of _parse_obj_matcher')
     # conn: obj.name(args)
     f_pmp = repo.func('matcher._parse_message_pattern')
     mp_init = repo.cls(M + 'MessagePattern').methods['__init__']
